@@ -25,19 +25,35 @@ func runC05(c *core.Ctx) {
 	c.Clause("C05.key", func() {
 		f := c.Fn(vfIdx + ".ForklessCause")
 		a, b := f.Param(0), f.Param(1)
+		// the key expression (a local holding it is looked through) is the two-field literal whose first
+		// field (in declaration order, whatever the order of a keyed literal) is a and whose second is b
 		keyOK := func(e ast.Expr) bool {
-			cl, ok := ast.Unparen(e).(*ast.CompositeLit)
+			cl, ok := resolveLocal(f, e).(*ast.CompositeLit)
 			if !ok || len(cl.Elts) != 2 {
 				return false
 			}
-			x, y := cl.Elts[0], cl.Elts[1]
-			if kv, ok := x.(*ast.KeyValueExpr); ok {
-				x = kv.Value
+			st, _ := f.Info().TypeOf(cl).Underlying().(*types.Struct)
+			if st == nil || st.NumFields() != 2 {
+				return false
 			}
-			if kv, ok := y.(*ast.KeyValueExpr); ok {
-				y = kv.Value
+			var elems [2]ast.Expr
+			for i, el := range cl.Elts {
+				kv, keyed := el.(*ast.KeyValueExpr)
+				if !keyed {
+					elems[i] = el
+					continue
+				}
+				id, isID := kv.Key.(*ast.Ident)
+				if !isID {
+					return false
+				}
+				for j := 0; j < 2; j++ {
+					if st.Field(j).Name() == id.Name {
+						elems[j] = kv.Value
+					}
+				}
 			}
-			return varOf(f, x) == a && varOf(f, y) == b
+			return elems[0] != nil && elems[1] != nil && canonVar(f, varOf(f, elems[0])) == a && canonVar(f, varOf(f, elems[1])) == b
 		}
 		gets := f.CallsMatching(func(cs *core.CallSite) bool {
 			return cs.Name == "utils/simplewlru.Cache.Get" && fieldNameOf(f, cs.Recv()) == fcCache
@@ -52,7 +68,7 @@ func runC05(c *core.Ctx) {
 		okV := false
 		if rv != nil {
 			for _, as := range assignsToVar(f, rv) {
-				if call := isCallTo(f, as.RHS, vfIdx+".forklessCause"); call != nil && as.RHS != nil && varOf(f, call.Args[0]) == a && varOf(f, call.Args[1]) == b {
+				if call := isCallTo(f, as.RHS, vfIdx+".forklessCause"); call != nil && as.RHS != nil && len(call.Args) == 2 && canonVar(f, varOf(f, call.Args[0])) == a && canonVar(f, varOf(f, call.Args[1])) == b {
 					okV = true
 				}
 			}
